@@ -15,6 +15,7 @@ EXPLANATION = (
     "written with the request's created_at and followed by the class-appropriate removal up to that time, and an "
     "id marker is written only after a present target was removed. Behaviour over all continuations follows by "
     "argument from these plus LMDB semantics and is not mechanised.")
+EXPLANATION += " Also decided: is_deleted and when_is_naddr_deleted answer only after reading their table through the caller's transaction; after the address marker is written the handler reaches the next tag (or Ok) only through a removal or through finding the kind non-removable."
 ASSUMPTIONS = []
 
 
@@ -25,6 +26,7 @@ def run(ctx):
     tables.markers_never_removed(ctx, s)
     tables.rebuild_table_cover(ctx, s)
     tables.marker_codec(ctx, s)
+    tables.lookups_answer_from_table(ctx, s, ("is_deleted", "when_is_naddr_deleted"))
     lifecycle.covered_events_removed(ctx, s)
     lifecycle.all_tags_examined(ctx, s)
     marker_key_exact(ctx, s)
